@@ -53,6 +53,7 @@ type Obligation struct {
 	x       *Exec
 	Cover   bool // cover query: expected SAT
 	Result  *SolveResult
+	Clause  *Clause // the contract clause behind an `ensures` obligation (for replay)
 	Case    *Term // case-split hypothesis (already part of the goal's guard); used to specialise the query by substitution
 }
 
@@ -98,6 +99,8 @@ type Exec struct {
 	noSlice  bool
 	subDone  map[*Term]bool
 	leadDone map[*Term]bool
+	assumeDefs []map[*Term]bool
+	curDefs    map[*Term]bool
 }
 
 type execErr struct{ msg string }
@@ -113,6 +116,27 @@ func (x *Exec) assume(t *Term) {
 		return
 	}
 	x.assumes = append(x.assumes, t)
+	x.assumeDefs = append(x.assumeDefs, x.curDefs)
+}
+
+// defining: hypotheses assumed inside fn only constrain the symbols introduced after mark (results of a call,
+// lengths of a submatch): they are relevant to a goal only if one of those symbols is.
+func (x *Exec) defining(fn func()) {
+	first := x.o.nextID
+	start := len(x.assumes)
+	fn()
+	defs := map[*Term]bool{}
+	for _, v := range x.o.vars {
+		if v.id > first {
+			defs[v] = true
+		}
+	}
+	if len(defs) == 0 {
+		return
+	}
+	for i := start; i < len(x.assumes); i++ {
+		x.assumeDefs[i] = defs
+	}
 }
 
 func (x *Exec) counter(k string) int {
